@@ -48,7 +48,7 @@ func session(decls string) (o sessObs) {
 		o.End, o.Err = "error", "declarations: "+err.Error()
 		return
 	}
-	_, err := i.Eval(`fmt.Println("p", f(1))`)
+	_, err := i.Eval(`fmt.Println("p", 0, f(1))`)
 	o.Obs = gocore.Classify(err)
 	o.Stdout = out.String()
 	// the interpreter must remain usable
@@ -58,7 +58,7 @@ func session(decls string) (o sessObs) {
 		return
 	}
 	out.Reset()
-	if v, err := i.Eval("h(2)"); err != nil || !v.IsValid() || v.Int() != 2 || out.String() != "p 2\n" {
+	if v, err := i.Eval("h(2)"); err != nil || !v.IsValid() || v.Int() != 2 || out.String() != "p 1 2\n" {
 		o.After = fmt.Sprintf("h(2) gave %v, %v, output %q", v, err, out.String())
 	}
 	return
@@ -169,7 +169,7 @@ func sessions(c *fw.Ctx, behs []gocore.Beh) error {
 			c.Count("session:"+jobs[ji].(sessJob).Decls[x], true)
 			c.TracesVsImpl++
 			rep := map[string]any{"prog": b.Prog, "out": b.Out, "status": b.Status, "pval": b.Pval, "session": true,
-				"decls": jobs[ji].(sessJob).Decls[x], "call": `fmt.Println("p", f(1))`, "expected_stdout": b.ExpectedStdout(), "observed": o}
+				"decls": jobs[ji].(sessJob).Decls[x], "call": `fmt.Println("p", 0, f(1))`, "expected_stdout": b.ExpectedStdout(), "observed": o}
 			switch {
 			case !b.Agrees(o.Obs):
 				c.Fail("session", "the call behaves differently from the whole program: "+o.End+" "+o.Value+" "+o.Err, rep)
